@@ -1,4 +1,5 @@
 import MorfuseModel.Conc.Lemmas
+import MorfuseModel.Conc.PoolLemmas
 /-!
 # C20 — engines on different OS threads do not interfere
 
@@ -11,32 +12,6 @@ counter-examples under ThreadSanitizer; that C++ mutexes, thread-local storage a
 initialisation behave like the model is runtime truth (trusted base).
 -/
 namespace Morfuse.Conc
-
-/-- a thread inside an exclusive section of `m` excludes every other thread from `m` -/
-private theorem excl_alone {s : St} (hinv : Inv s) {m : Nat} {i j : Nat} (hij : i ≠ j) {ti tj : Thread}
-    (hti : s.thr[i]? = some ti) (htj : s.thr[j]? = some tj) {k : LockKind}
-    (hi : holds m .exclusive ti = true) (hj : holds m k tj = true) (hk : k ≠ .none) : False := by
-  have hpos := countP_pos_of_get _ _ _ _ hti hi
-  cases hw : (s.mtx m).writer with
-  | false => have := hinv.wr0 m hw; omega
-  | true =>
-    obtain ⟨h1, h0⟩ := hinv.wr1 m hw
-    cases k with
-    | none => exact hk rfl
-    | exclusive => have := two_le_countP _ _ _ _ _ _ hij hti htj hi hj; omega
-    | shared =>
-      have := countP_pos_of_get _ _ _ _ htj hj
-      have := hinv.readers m
-      omega
-
-private theorem holds_of_inside {t : Thread} {sec : Section} (hin : t.inside = true)
-    (hh : t.todo.head? = some sec) : holds sec.mtx sec.mode t = true := by
-  cases htd : t.todo with
-  | nil => simp [htd] at hh
-  | cons x rest =>
-    simp only [htd, List.head?_cons, Option.some.injEq] at hh
-    subst hh
-    simp [holds, hin, htd]
 
 /-- **Clause 1 (discipline ⇒ ordered).**  If every write to a shared location happens under the
     exclusive mode of that location's mutex and every read under its shared or exclusive mode, or
@@ -196,5 +171,91 @@ example : writersExclusive [⟨"Alloc", .exclusive, "Alloc", true, true⟩, ⟨"
     ⟨"Count", .exclusive, "Count", false, false⟩] = true ∧
     readersLocked [⟨"Alloc", .exclusive, "Alloc", true, true⟩, ⟨"Free", .exclusive, "Free", true, true⟩,
     ⟨"Count", .exclusive, "Count", false, false⟩] = true := by decide
+
+/-! ### contexts sharing the locked pool (`Conc/Pool.lean`) -/
+
+namespace Pool
+open Morfuse.BlockAlloc (Slot liveOf)
+
+/-- **Clause 3 (independent results).**  N contexts on N OS threads share one pool whose
+    `Alloc`/`Free` take the mutex *exclusively* (each call is a read-modify-write of the pool state
+    with the lock held in between, not an atomic step) and otherwise touch only the slots they were
+    handed.  In every interleaving, at every moment, the output of every context is what the
+    specification computes from the operations that context has completed — a function of its own
+    program only, hence the same as when the context runs alone (`C20_same_as_alone`). -/
+theorem C20_independent_results (bs : Nat) (hbs : 2 ≤ bs) (P : List (List POp)) (sched : List Nat)
+    (i : Nat) (t : PThread) (ht : (run bs .exclusive (initSt P) sched).thr[i]? = some t) :
+    P[i]? = some (t.done ++ t.todo) ∧ t.out = (specRun t.done).out :=
+  ⟨prog_run (prog_init P) sched i t ht, ((pinv_run hbs (pinv_init bs P) sched).sim i t ht).1⟩
+
+/-- … in particular a context that ran to completion next to any other contexts, under any
+    schedule, has printed exactly what it prints when it is the only context of the process. -/
+theorem C20_same_as_alone (bs : Nat) (hbs : 2 ≤ bs) (P : List (List POp)) (sched : List Nat)
+    (i : Nat) (prog : List POp) (hp : P[i]? = some prog) (t : PThread)
+    (ht : (run bs .exclusive (initSt P) sched).thr[i]? = some t) (hfin : t.todo = [])
+    (sched1 : List Nat) (t1 : PThread)
+    (ht1 : (run bs .exclusive (initSt [prog]) sched1).thr[0]? = some t1) (hfin1 : t1.todo = []) :
+    t.out = t1.out := by
+  obtain ⟨h1, h2⟩ := C20_independent_results bs hbs P sched i t ht
+  obtain ⟨h3, h4⟩ := C20_independent_results bs hbs [prog] sched1 0 t1 ht1
+  rw [hfin, List.append_nil, hp] at h1
+  rw [hfin1, List.append_nil] at h3
+  simp only [List.getElem?_cons_zero, Option.some.injEq] at h1 h3
+  rw [h2, h4, ← h1, ← h3]
+
+/-- **No slot is handed to two threads** (nor twice to one): in every interleaving the slots the
+    contexts hold are pairwise different and all live in the pool. -/
+theorem C20_pool_no_slot_twice (bs : Nat) (hbs : 2 ≤ bs) (P : List (List POp)) (sched : List Nat)
+    (i j : Nat) (ti tj : PThread) (k k' : Nat) (h : Slot)
+    (hi : (run bs .exclusive (initSt P) sched).thr[i]? = some ti)
+    (hj : (run bs .exclusive (initSt P) sched).thr[j]? = some tj)
+    (hk : ti.handles[k]? = some h) (hk' : tj.handles[k']? = some h) :
+    (i = j ∧ k = k') ∧ h ∈ liveOf bs (run bs .exclusive (initSt P) sched).pool :=
+  have inv := pinv_run hbs (pinv_init bs P) sched
+  ⟨inv.inj i j ti tj k k' h hi hj hk hk', inv.live i ti k h hi hk⟩
+
+/-- **Linearizability of the locked pool.**  Whatever the interleaving, the pool state is the state
+    the *sequential* allocator reaches on some sequential history of `Alloc`/`Free` calls (the order
+    in which the calls released the lock), so every theorem of C19 applies to it. -/
+theorem C20_pool_linearizable (bs : Nat) (hbs : 2 ≤ bs) (P : List (List POp)) (sched : List Nat) :
+    ∃ ops : List (Morfuse.BlockAlloc.Op bs),
+      Morfuse.BlockAlloc.run bs Morfuse.BlockAlloc.init ops = some (run bs .exclusive (initSt P) sched).pool :=
+  (pinv_run hbs (pinv_init bs P) sched).reach
+
+/-- … and a context inside a pool call always works on the current pool state: nobody else wrote
+    the pool between its `lock()` and its `unlock()`. -/
+theorem C20_pool_snapshot_current (bs : Nat) (hbs : 2 ≤ bs) (P : List (List POp)) (sched : List Nat)
+    (i : Nat) (t : PThread) (p : Morfuse.BlockAlloc.State)
+    (ht : (run bs .exclusive (initSt P) sched).thr[i]? = some t) (hs : t.snap = some p) :
+    p = (run bs .exclusive (initSt P) sched).pool :=
+  (snap_current (pinv_run hbs (pinv_init bs P) sched) ht hs).1
+
+/-- **The same system with the lock the code takes today (`std::shared_lock` in `Alloc`).**  Two
+    contexts allocate at the same time; both calls read the same pool state, both are handed the
+    *same* slot, and the first context reads back the value the second one constructed there:
+    its output (`[2]`) differs from its output when alone (`[1]`).  This is finding D19. -/
+theorem C20_shared_pool_hands_slot_twice (bs : Nat) :
+    let s := run bs .shared (initSt [[.alloc 1, .get 0], [.alloc 2]]) [0, 1, 0, 1, 0]
+    (s.thr[0]?.map (·.handles)) = some [(Morfuse.BlockAlloc.alloc bs Morfuse.BlockAlloc.init).2] ∧
+    (s.thr[1]?.map (·.handles)) = some [(Morfuse.BlockAlloc.alloc bs Morfuse.BlockAlloc.init).2] ∧
+    (s.thr[0]?.map (·.out)) = some [2] ∧
+    (specRun [.alloc 1, .get 0]).out = [1] := by
+  simp [run, step, initSt, Mtx.canAcquire, Mtx.idle, Mtx.acquire, Mtx.release, upd, specRun, specStep]
+
+/-- non-vacuity: the specification of a context that uses every operation -/
+example : (specRun [.alloc 5, .alloc 6, .get 1, .put 0 7, .get 0, .free 0, .get 0, .get 1]).out = [6, 7, 6, 0] := by
+  decide
+
+/-- non-vacuity: under the exclusive lock the two contexts of the witness above do get different
+    slots and context 0 reads its own value, whatever the pool's block size -/
+example (bs : Nat) (hbs : 2 ≤ bs) (t : PThread)
+    (ht : (run bs .exclusive (initSt [[.alloc 1, .get 0], [.alloc 2]]) [0, 1, 0, 1, 0, 1, 1]).thr[0]? = some t)
+    (hfin : t.todo = []) : t.out = [1] := by
+  obtain ⟨h1, h2⟩ := C20_independent_results bs hbs _ _ 0 t ht
+  rw [hfin, List.append_nil] at h1
+  simp only [List.getElem?_cons_zero, Option.some.injEq] at h1
+  rw [h2, ← h1]; decide
+
+end Pool
 
 end Morfuse.Conc
